@@ -482,8 +482,13 @@ func (s *c15Sys) oracles(c *c15Case) {
 	for _, h := range c.Headers {
 		if c15CanonKey(h[0]) == "X-Forwarded-Uri" {
 			if h[1] != "" {
+				// as extractURL reads it (since f446e16 / d3f6cd7): the query as sent; a value
+				// url.Parse rejects is split at the first '?'
 				if u, err := url.Parse(h[1]); err == nil {
-					c.Xfu = &[2]string{u.EscapedPath(), u.Query().Encode()}
+					c.Xfu = &[2]string{u.EscapedPath(), u.RawQuery}
+				} else {
+					p, q, _ := strings.Cut(h[1], "?")
+					c.Xfu = &[2]string{p, q}
 				}
 			}
 
